@@ -2781,18 +2781,22 @@ class XonshParser(Parser):
         mark = self._mark()
         _lnum, _col = self._tokenizer.peek().start
         if (
-            (self.expect("{"))
+            (lbrace := self.expect("{"))
             and (a := self.annotated_rhs())
             and (debug_expr := self.expect("="),)
             and (conver := self.fstring_conversion(),)
             and (format := self.fstring_full_format_spec(),)
             and (self.expect("}"))
         ):
-            return ast.FormattedValue(
-                value=a,
-                conversion=conver if conver else b"r"[0] if debug_expr else -1,
-                format_spec=format,
-                **self.span(_lnum, _col),
+            return self.debug_field(
+                lbrace,
+                debug_expr,
+                ast.FormattedValue(
+                    value=a,
+                    conversion=conver if conver else b"r"[0] if debug_expr and (not format) else -1,
+                    format_spec=format,
+                    **self.span(_lnum, _col),
+                ),
             )
         self._reset(mark)
         if self.call_invalid_rules and (self.invalid_replacement_field()):
